@@ -1,5 +1,6 @@
 import SpoxModel.Lemmas.Dispatch
 import SpoxModel.Generated.ResultType
+import SpoxModel.Generated.VarDunders
 /-!
 # C17 — overloaded Python operators on Var follow numpy semantics
 
@@ -228,6 +229,231 @@ theorem arith_matches (cp : Bool) (op : Op) (hop : op ∈ intOps) (da db : Nat) 
 
 
 
+/-- The arithmetic part of `arith_matches`, for ANY two operand sub-trees that evaluate to in-range values of
+    the integer type `d`: the emitted operator expression over them evaluates to numpy's wrapped exact result. -/
+theorem arith_eval (a b : Operand) (op : Op) (hop : op ∈ intOps) (d : Nat)
+    (hint : info.integer d = true) (htb : ¬ d = boolDt) (hbits : 2 ≤ info.bits d)
+    (L R : Tree) (x y : Int)
+    (el : eval info a b x y L = some (d, x)) (er : eval info a b x y R = some (d, y))
+    (hxt : inRange info d x = true) (hyt : inRange info d y = true)
+    (hdiv : op = .floordiv → y ≠ 0 ∧ ¬(x = intMin d ∧ y = -1)) :
+    eval info a b x y (arithTree info op d L R) = some (d, npInt info op d x y) := by
+  have hw : ∀ v, inRange info d v = true → wrap info d v = v := fun v hv => wrap_id info d (by omega) v hv
+  have htb' : (d == boolDt) = false := by simpa using htb
+  simp only [intOps, List.mem_cons, List.not_mem_nil, or_false] at hop
+  rcases hop with rfl | rfl | rfl | rfl
+  · simp only [arithTree, eval_bin, el, er, npInt]
+  · simp only [arithTree, eval_bin, el, er, npInt]
+  · simp only [arithTree, eval_bin, el, er, npInt]
+  · obtain ⟨hy0, hov⟩ := hdiv rfl
+    by_cases hs : info.signed d = true
+    · simp only [arithTree, hint, hs, Bool.not_true, Bool.false_eq_true, if_false, if_true, npInt]
+      -- the representable range of the signed type d
+      have hrange : ∀ v, inRange info d v = true ↔ (-(2 : Int) ^ (info.bits d - 1) ≤ v ∧ v < (2 : Int) ^ (info.bits d - 1)) := by
+        intro v; simp [inRange, hs]
+      have hwP : ∀ v, -(2 : Int) ^ (info.bits d - 1) ≤ v → v < (2 : Int) ^ (info.bits d - 1) → wrap info d v = v :=
+        fun v h1 h2 => hw v ((hrange v).2 ⟨h1, h2⟩)
+      have hP2 : (2 : Int) ≤ (2 : Int) ^ (info.bits d - 1) := by
+        have := two_pow_mono (show 1 ≤ info.bits d - 1 by omega)
+        simpa using this
+      obtain ⟨hx1, hx2⟩ := (hrange x).1 hxt
+      obtain ⟨hy1, hy2⟩ := (hrange y).1 hyt
+      have key := floordiv_correct (wrap info d) _ hwP x y hx1 hx2 hy1 hy2 hy0 (by simpa [intMin] using hov)
+      -- evaluate the emitted expression bottom-up
+      have eDiv : eval info a b x y (.bin .Div L R)
+          = some (d, wrap info d (x.tdiv y)) := by
+        simp only [eval_bin, el, er, hy0, if_false]
+      have eMul := eval_bin info a b x y .Mul (.bin .Div L R) R
+      simp only [eDiv, er] at eMul
+      have eRem := eval_bin info a b x y .Sub L
+        (.bin .Mul (.bin .Div L R) R)
+      simp only [el, eMul] at eRem
+      have eZero : eval info a b x y (.zero d) = some (d, 0) := rfl
+      have eEq := eval_bin info a b x y .Equal
+        (.bin .Sub L (.bin .Mul (.bin .Div L R) R)) (.zero d)
+      simp only [eRem, eZero] at eEq
+      have eNot := eval_un info a b x y .Not (.bin .Equal
+        (.bin .Sub L (.bin .Mul (.bin .Div L R) R)) (.zero d))
+      simp only [eEq] at eNot
+      have eLt1 := eval_bin info a b x y .Less
+        (.bin .Sub L (.bin .Mul (.bin .Div L R) R)) (.zero d)
+      simp only [eRem, eZero] at eLt1
+      have eLt2 := eval_bin info a b x y .Less R (.zero d)
+      simp only [er, eZero] at eLt2
+      rw [eval_bin, eDiv, eval_cast, eval_bin, eNot, eval_bin, eLt1, eLt2]
+      simp only [htb', hint, Bool.false_eq_true, if_false, if_true, b2i_ne_zero, one_sub_b2i_ne_zero]
+      have hb2i : ∀ c : Bool, wrap info d (b2i c) = b2i c := by
+        intro c
+        cases c
+        · exact hwP _ (by simp only [b2i]; omega) (by simp only [b2i]; omega)
+        · exact hwP _ (by simp only [b2i]; omega) (by simp only [b2i]; omega)
+      rw [hb2i]
+      have hite : ∀ (R : Int), b2i (!(R == 0) && (decide (R < 0) != decide (y < 0)))
+          = (if R ≠ 0 ∧ (decide (R < 0) != decide (y < 0)) = true then 1 else 0) := by
+        intro R
+        by_cases h0 : R = 0 <;> cases hh : (decide (R < 0) != decide (y < 0)) <;> simp [b2i, h0]
+      rw [hite]
+      dsimp only at key
+      have hfd : wrap info d (x.fdiv y) = x.fdiv y := by
+        rw [← key]; exact hw _ (wrap_inRange info d (by omega) _)
+      rw [hfd, key]
+    · simp only [arithTree, hint, hs, Bool.not_true, Bool.false_eq_true, if_false, npInt, eval_bin, el, er, hy0]
+      have hx0 : 0 ≤ x := by
+        have := hxt; simp [inRange, hs] at this; exact this.1
+      have hy0' : 0 ≤ y := by
+        have := hyt; simp [inRange, hs] at this; exact this.1
+      rw [Int.fdiv_eq_tdiv_of_nonneg hx0 hy0']
+
+
+
+
+
+/-! ## Values: a Python int on either side of an integer Var (all values) -/
+
+/-- the Var operand as the dispatcher passes it on: cast with promotion on, as it is with promotion off -/
+def varTree (tp : Bool) (t i : Nat) : Tree := if tp then .cast t (.arg i) else .arg i
+
+theorem int_scalar_shape :
+    ∀ tp ∈ [true, false], ∀ op ∈ intOps, ∀ da ∈ ints,
+      ((match dispatch info (some (tp, true)) op (.var da) (.pyInt 1) with
+        | .ok (tree, d) => tree == arithTree info op da (varTree tp da 0) (.constOf 1 da) && d == da
+        | .error _ => false) &&
+       (match dispatch info (some (tp, true)) op (.pyInt 1) (.var da) with
+        | .ok (tree, d) => tree == arithTree info op da (.constOf 0 da) (varTree tp da 1) && d == da
+        | .error _ => false) &&
+       info.integer da && da != boolDt && decide (2 ≤ info.bits da)) = true := by
+  decide +kernel
+
+theorem typeOf_pyInt_right (a : Operand) (v v' : Int) : (t : Tree) →
+    typeOf info a (.pyInt v) t = typeOf info a (.pyInt v') t
+  | .arg i => by by_cases h : i = 0 <;> simp [typeOf, h]
+  | .cast to t => by simp [typeOf, typeOf_pyInt_right a v v' t]
+  | .constOf _ _ => rfl
+  | .zero _ => rfl
+  | .un op t => by simp [typeOf, typeOf_pyInt_right a v v' t]
+  | .bin op l r => by simp [typeOf, typeOf_pyInt_right a v v' l, typeOf_pyInt_right a v v' r]
+
+theorem typeOf_pyInt_left (b : Operand) (v v' : Int) : (t : Tree) →
+    typeOf info (.pyInt v) b t = typeOf info (.pyInt v') b t
+  | .arg i => by by_cases h : i = 0 <;> simp [typeOf, h]
+  | .cast to t => by simp [typeOf, typeOf_pyInt_left b v v' t]
+  | .constOf _ _ => rfl
+  | .zero _ => rfl
+  | .un op t => by simp [typeOf, typeOf_pyInt_left b v v' t]
+  | .bin op l r => by simp [typeOf, typeOf_pyInt_left b v v' l, typeOf_pyInt_left b v v' r]
+
+theorem int_scalar_target :
+    ∀ tp ∈ [true, false], ∀ da ∈ ints,
+      ((match targetType info tp false (.var da) (.pyInt 1) with | .ok t => t == da | .error _ => false) &&
+       (match targetType info tp false (.pyInt 1) (.var da) with | .ok t => t == da | .error _ => false) &&
+       inRange info da 1) = true := by
+  decide +kernel
+
+theorem intOps_not_truediv (op : Op) (hop : op ∈ intOps) : (op == Op.truediv) = false := by
+  simp only [intOps, List.mem_cons, List.not_mem_nil, or_false] at hop
+  rcases hop with rfl | rfl | rfl | rfl <;> rfl
+
+/-- the dispatch decision does not depend on WHICH in-range Python int stands on the right -/
+theorem dispatch_pyInt_right (tp : Bool) (htp : tp ∈ [true, false]) (op : Op) (hop : op ∈ intOps) (da : Nat) (hda : da ∈ ints)
+    (v : Int) (hv : inRange info da v = true) :
+    dispatch info (some (tp, true)) op (.var da) (.pyInt v) = dispatch info (some (tp, true)) op (.var da) (.pyInt 1) := by
+  have h := int_scalar_target tp htp da hda
+  simp only [Bool.and_eq_true] at h
+  obtain ⟨⟨h1, _⟩, h1r⟩ := h
+  have e : targetType info tp false (.var da) (.pyInt v) = targetType info tp false (.var da) (.pyInt 1) := rfl
+  have hnt := intOps_not_truediv op hop
+  cases ht : targetType info tp false (.var da) (.pyInt 1) with
+  | error err => simp [ht] at h1
+  | ok t =>
+    simp only [ht, beq_iff_eq] at h1
+    subst h1
+    simp only [intOps, List.mem_cons, List.not_mem_nil, or_false] at hop
+    rcases hop with rfl | rfl | rfl | rfl <;>
+      simp [dispatch, hnt, e, ht, promoteTarget, Operand.constLike, hv, h1r, typeOf_pyInt_right (.var t) v 1, bind, Except.bind]
+
+theorem dispatch_pyInt_left (tp : Bool) (htp : tp ∈ [true, false]) (op : Op) (hop : op ∈ intOps) (da : Nat) (hda : da ∈ ints)
+    (v : Int) (hv : inRange info da v = true) :
+    dispatch info (some (tp, true)) op (.pyInt v) (.var da) = dispatch info (some (tp, true)) op (.pyInt 1) (.var da) := by
+  have h := int_scalar_target tp htp da hda
+  simp only [Bool.and_eq_true] at h
+  obtain ⟨⟨_, h1⟩, h1r⟩ := h
+  have e : targetType info tp false (.pyInt v) (.var da) = targetType info tp false (.pyInt 1) (.var da) := rfl
+  have hnt := intOps_not_truediv op hop
+  cases ht : targetType info tp false (.pyInt 1) (.var da) with
+  | error err => simp [ht] at h1
+  | ok t =>
+    simp only [ht, beq_iff_eq] at h1
+    subst h1
+    simp only [intOps, List.mem_cons, List.not_mem_nil, or_false] at hop
+    rcases hop with rfl | rfl | rfl | rfl <;>
+      simp [dispatch, hnt, e, ht, promoteTarget, Operand.constLike, hv, h1r, typeOf_pyInt_left (.var t) v 1, bind, Except.bind]
+
+theorem eval_varTree (tp : Bool) (a b : Operand) (d i : Nat) (va vb : Int)
+    (hint : info.integer d = true) (htb : ¬ d = boolDt) (hbits : 2 ≤ info.bits d)
+    (hop : (if i = 0 then a else b) = .var d)
+    (hr : inRange info d (if i = 0 then va else vb) = true) :
+    eval info a b va vb (varTree tp d i) = some (d, if i = 0 then va else vb) := by
+  have htb' : (d == boolDt) = false := by simpa using htb
+  cases tp
+  · simp [varTree, eval, hop]
+  · simp [varTree, eval, hop, hint, htb', wrap_id info d (by omega) _ hr]
+
+/-- **`x <op> v` for a Python int `v` on the RIGHT of an integer Var** (`+ - * //`, either promotion setting,
+    constant promotion on): for every value `x` the Var can hold and every `v` representable in the Var's
+    type (other `v` are numpy's and spox's OverflowError), the emitted tree evaluates to numpy's wrapped
+    exact result in the Var's own element type (numpy's weak-scalar rule). -/
+theorem arith_scalar_right (tp : Bool) (htp : tp ∈ [true, false]) (op : Op) (hop : op ∈ intOps)
+    (da : Nat) (hda : da ∈ ints) (x v : Int)
+    (hx : inRange info da x = true) (hv : inRange info da v = true)
+    (hdiv : op = .floordiv → v ≠ 0 ∧ ¬(x = intMin da ∧ v = -1)) :
+    ∃ tree, dispatch info (some (tp, true)) op (.var da) (.pyInt v) = .ok (tree, da) ∧
+      eval info (.var da) (.pyInt v) x v tree = some (da, npInt info op da x v) := by
+  have h := int_scalar_shape tp htp op hop da hda
+  simp only [Bool.and_eq_true, decide_eq_true_eq, bne_iff_ne, ne_eq] at h
+  obtain ⟨⟨⟨⟨hr, _⟩, hint⟩, htb⟩, hbits⟩ := h
+  rw [dispatch_pyInt_right tp htp op hop da hda v hv]
+  cases hdisp : dispatch info (some (tp, true)) op (.var da) (.pyInt 1) with
+  | error e => simp [hdisp] at hr
+  | ok p =>
+    obtain ⟨tree, d⟩ := p
+    simp only [hdisp, Bool.and_eq_true, beq_iff_eq] at hr
+    obtain ⟨rfl, rfl⟩ := hr
+    refine ⟨_, rfl, ?_⟩
+    apply arith_eval _ _ op hop d hint htb hbits _ _ x v _ _ hx hv hdiv
+    · exact eval_varTree tp _ _ d 0 x v hint htb hbits rfl hx
+    · simp [eval, hint]
+
+/-- **`v <op> y` for a Python int `v` on the LEFT** (the reflected operators): same statement, operands in
+    numpy's order (`v - y`, `v // y`). -/
+theorem arith_scalar_left (tp : Bool) (htp : tp ∈ [true, false]) (op : Op) (hop : op ∈ intOps)
+    (da : Nat) (hda : da ∈ ints) (v y : Int)
+    (hv : inRange info da v = true) (hy : inRange info da y = true)
+    (hdiv : op = .floordiv → y ≠ 0 ∧ ¬(v = intMin da ∧ y = -1)) :
+    ∃ tree, dispatch info (some (tp, true)) op (.pyInt v) (.var da) = .ok (tree, da) ∧
+      eval info (.pyInt v) (.var da) v y tree = some (da, npInt info op da v y) := by
+  have h := int_scalar_shape tp htp op hop da hda
+  simp only [Bool.and_eq_true, decide_eq_true_eq, bne_iff_ne, ne_eq] at h
+  obtain ⟨⟨⟨⟨_, hl⟩, hint⟩, htb⟩, hbits⟩ := h
+  rw [dispatch_pyInt_left tp htp op hop da hda v hv]
+  cases hdisp : dispatch info (some (tp, true)) op (.pyInt 1) (.var da) with
+  | error e => simp [hdisp] at hl
+  | ok p =>
+    obtain ⟨tree, d⟩ := p
+    simp only [hdisp, Bool.and_eq_true, beq_iff_eq] at hl
+    obtain ⟨rfl, rfl⟩ := hl
+    refine ⟨_, rfl, ?_⟩
+    apply arith_eval _ _ op hop d hint htb hbits _ _ v y _ _ hv hy hdiv
+    · simp [eval, hint]
+    · exact eval_varTree tp _ _ d 1 v y hint htb hbits rfl hy
+
+-- non-vacuity: -7 // 2 on an int32 Var (dtype 2) with the Python int on the right; 7 - x on the left
+example : ∃ tree, dispatch info (some (true, true)) .floordiv (.var 2) (.pyInt 2) = .ok (tree, 2) ∧
+    eval info (.var 2) (.pyInt 2) (-7) 2 tree = some (2, -4) := by
+  obtain ⟨tree, h1, h2⟩ := arith_scalar_right true (by simp) .floordiv (by simp [intOps]) 2 (by simp [ints]) (-7) 2
+    (by decide +kernel) (by decide +kernel) (fun _ => ⟨by omega, by omega⟩)
+  exact ⟨tree, h1, by rw [h2]; decide +kernel⟩
+
+
 /-! ## Expressions: dispatch is history-free, so agreement with numpy composes
 
 An expression over Vars is built by successive operator applications; every application dispatches on
@@ -337,6 +563,190 @@ theorem expr_matches (cp : Bool) (env : Nat → Nat × Int)
           · simp [hint] at h
 
 
+/-! ## Expressions with Python int literals on either side -/
+
+/-- Expressions over integer Vars **and Python int literals** on either side of an operator. -/
+inductive ExprS
+  | var (i : Nat)
+  | bin (op : Op) (l r : ExprS)
+  | binR (op : Op) (l : ExprS) (v : Int)
+  | binL (op : Op) (v : Int) (r : ExprS)
+
+def ExprS.intOnly : ExprS → Bool
+  | .var _ => true
+  | .bin op l r => intOps.contains op && l.intOnly && r.intOnly
+  | .binR op l _ => intOps.contains op && l.intOnly
+  | .binL op _ r => intOps.contains op && r.intOnly
+
+/-- numpy (version 2 rules): a Python int next to an integer array takes the array's element type and must be
+    representable in it (otherwise OverflowError: `none`). -/
+def npExprS (env : Nat → Nat × Int) : ExprS → Option (Nat × Int)
+  | .var i => some (env i)
+  | .bin op l r =>
+      match npExprS env l, npExprS env r with
+      | some (dl, x), some (dr, y) =>
+          (match info.rt2 dl dr with
+           | some t =>
+               if !info.integer t then none
+               else if op == .floordiv && (y == 0 || (x == intMin t && y == -1)) then none
+               else some (t, npInt info op t x y)
+           | none => none)
+      | _, _ => none
+  | .binR op l v =>
+      match npExprS env l with
+      | some (dl, x) =>
+          if !inRange info dl v then none
+          else if op == .floordiv && (v == 0 || (x == intMin dl && v == -1)) then none
+          else some (dl, npInt info op dl x v)
+      | none => none
+  | .binL op v r =>
+      match npExprS env r with
+      | some (dr, y) =>
+          if !inRange info dr v then none
+          else if op == .floordiv && (y == 0 || (v == intMin dr && y == -1)) then none
+          else some (dr, npInt info op dr v y)
+      | none => none
+
+/-- spox, promotion and constant promotion on: each application dispatched on the operand kinds alone. -/
+def spoxExprS (env : Nat → Nat × Int) : ExprS → Option (Nat × Int)
+  | .var i => some (env i)
+  | .bin op l r =>
+      match spoxExprS env l, spoxExprS env r with
+      | some (dl, x), some (dr, y) =>
+          (match dispatch info (some (true, true)) op (.var dl) (.var dr) with
+           | .ok (tree, _) => eval info (.var dl) (.var dr) x y tree
+           | .error _ => none)
+      | _, _ => none
+  | .binR op l v =>
+      match spoxExprS env l with
+      | some (dl, x) =>
+          (match dispatch info (some (true, true)) op (.var dl) (.pyInt v) with
+           | .ok (tree, _) => eval info (.var dl) (.pyInt v) x v tree
+           | .error _ => none)
+      | none => none
+  | .binL op v r =>
+      match spoxExprS env r with
+      | some (dr, y) =>
+          (match dispatch info (some (true, true)) op (.pyInt v) (.var dr) with
+           | .ok (tree, _) => eval info (.pyInt v) (.var dr) v y tree
+           | .error _ => none)
+      | none => none
+
+theorem ints_bits : ∀ t ∈ ints, 1 ≤ info.bits t := by decide +kernel
+
+theorem npInt_inRange (op : Op) (hop : op ∈ intOps) (t : Nat) (ht : t ∈ ints) (x y : Int) :
+    inRange info t (npInt info op t x y) = true := by
+  have hbits := ints_bits t ht
+  simp only [intOps, List.mem_cons, List.not_mem_nil, or_false] at hop
+  rcases hop with rfl | rfl | rfl | rfl <;> exact wrap_inRange info t hbits _
+
+/-- **Agreement with numpy composes over expressions with Python int literals on either side**:
+    wherever numpy computes an integer result (every literal representable in the element type it meets),
+    the graph spox emits computes the same element type and value, every intermediate included. -/
+theorem expr_scalars_match (env : Nat → Nat × Int)
+    (henv : ∀ i, (env i).1 ∈ ints ∧ inRange info (env i).1 (env i).2 = true) :
+    ∀ (e : ExprS), e.intOnly = true → ∀ t v, npExprS env e = some (t, v) →
+      t ∈ ints ∧ inRange info t v = true ∧ spoxExprS env e = some (t, v)
+  | .var i, _, t, v, h => by
+    simp only [npExprS, Option.some.injEq] at h
+    have := henv i
+    rw [h] at this
+    exact ⟨this.1, this.2, by simp [spoxExprS, h]⟩
+  | .bin op l r, hio, t, v, h => by
+    simp only [ExprS.intOnly, Bool.and_eq_true, List.contains_iff_mem] at hio
+    obtain ⟨⟨hop, hl⟩, hr⟩ := hio
+    simp only [npExprS] at h
+    cases hnl : npExprS env l with
+    | none => simp [hnl] at h
+    | some pl =>
+      cases hnr : npExprS env r with
+      | none => simp [hnl, hnr] at h
+      | some pr =>
+        obtain ⟨dl, x⟩ := pl
+        obtain ⟨dr, y⟩ := pr
+        obtain ⟨hdl, hxr, hsl⟩ := expr_scalars_match env henv l hl dl x hnl
+        obtain ⟨hdr, hyr, hsr⟩ := expr_scalars_match env henv r hr dr y hnr
+        simp only [hnl, hnr] at h
+        cases hrt : info.rt2 dl dr with
+        | none => simp [hrt] at h
+        | some t' =>
+          simp only [hrt] at h
+          by_cases hint : info.integer t' = true
+          · simp only [hint, Bool.not_true, Bool.false_eq_true, if_false] at h
+            by_cases hdz : (op == .floordiv && (y == 0 || (x == intMin t' && y == -1))) = true
+            · simp [hdz] at h
+            · simp only [hdz, Bool.false_eq_true, if_false, Option.some.injEq, Prod.mk.injEq] at h
+              obtain ⟨rfl, rfl⟩ := h
+              have hclosed := int_closed dl hdl dr hdr
+              simp only [hrt, hint, Bool.not_true, Bool.false_or, List.contains_iff_mem] at hclosed
+              have hdiv : op = .floordiv → y ≠ 0 ∧ ¬(x = intMin t' ∧ y = -1) := by
+                intro ho
+                subst ho
+                simp only [beq_self_eq_true, Bool.true_and, Bool.or_eq_true, beq_iff_eq, Bool.and_eq_true,
+                  not_or, not_and] at hdz
+                exact ⟨hdz.1, fun hh => hdz.2 hh.1 hh.2⟩
+              obtain ⟨tree, hd, he⟩ := arith_matches true op hop dl dr hdl hdr t' hrt hint x y hxr hyr hdiv
+              exact ⟨hclosed, npInt_inRange op hop t' hclosed x y, by simp only [spoxExprS, hsl, hsr, hd, he]⟩
+          · simp [hint] at h
+  | .binR op l c, hio, t, v, h => by
+    simp only [ExprS.intOnly, Bool.and_eq_true, List.contains_iff_mem] at hio
+    obtain ⟨hop, hl⟩ := hio
+    simp only [npExprS] at h
+    cases hnl : npExprS env l with
+    | none => simp [hnl] at h
+    | some pl =>
+      obtain ⟨dl, x⟩ := pl
+      obtain ⟨hdl, hxr, hsl⟩ := expr_scalars_match env henv l hl dl x hnl
+      simp only [hnl] at h
+      by_cases hc : inRange info dl c = true
+      · simp only [hc, Bool.not_true, Bool.false_eq_true, if_false] at h
+        by_cases hdz : (op == .floordiv && (c == 0 || (x == intMin dl && c == -1))) = true
+        · simp [hdz] at h
+        · simp only [hdz, Bool.false_eq_true, if_false, Option.some.injEq, Prod.mk.injEq] at h
+          obtain ⟨rfl, rfl⟩ := h
+          have hdiv : op = .floordiv → c ≠ 0 ∧ ¬(x = intMin dl ∧ c = -1) := by
+            intro ho
+            subst ho
+            simp only [beq_self_eq_true, Bool.true_and, Bool.or_eq_true, beq_iff_eq, Bool.and_eq_true,
+              not_or, not_and] at hdz
+            exact ⟨hdz.1, fun hh => hdz.2 hh.1 hh.2⟩
+          obtain ⟨tree, hd, he⟩ := arith_scalar_right true (by simp) op hop dl hdl x c hxr hc hdiv
+          exact ⟨hdl, npInt_inRange op hop dl hdl x c, by simp only [spoxExprS, hsl, hd, he]⟩
+      · simp [hc] at h
+  | .binL op c r, hio, t, v, h => by
+    simp only [ExprS.intOnly, Bool.and_eq_true, List.contains_iff_mem] at hio
+    obtain ⟨hop, hr⟩ := hio
+    simp only [npExprS] at h
+    cases hnr : npExprS env r with
+    | none => simp [hnr] at h
+    | some pr =>
+      obtain ⟨dr, y⟩ := pr
+      obtain ⟨hdr, hyr, hsr⟩ := expr_scalars_match env henv r hr dr y hnr
+      simp only [hnr] at h
+      by_cases hc : inRange info dr c = true
+      · simp only [hc, Bool.not_true, Bool.false_eq_true, if_false] at h
+        by_cases hdz : (op == .floordiv && (y == 0 || (c == intMin dr && y == -1))) = true
+        · simp [hdz] at h
+        · simp only [hdz, Bool.false_eq_true, if_false, Option.some.injEq, Prod.mk.injEq] at h
+          obtain ⟨rfl, rfl⟩ := h
+          have hdiv : op = .floordiv → y ≠ 0 ∧ ¬(c = intMin dr ∧ y = -1) := by
+            intro ho
+            subst ho
+            simp only [beq_self_eq_true, Bool.true_and, Bool.or_eq_true, beq_iff_eq, Bool.and_eq_true,
+              not_or, not_and] at hdz
+            exact ⟨hdz.1, fun hh => hdz.2 hh.1 hh.2⟩
+          obtain ⟨tree, hd, he⟩ := arith_scalar_left true (by simp) op hop dr hdr c y hc hyr hdiv
+          exact ⟨hdr, npInt_inRange op hop dr hdr c y, by simp only [spoxExprS, hsr, hd, he]⟩
+      · simp [hc] at h
+
+-- non-vacuity: (x0 // 2 - 3) * x1 with x0 : int8 = -7, x1 : int32 = 5, and 100 - x0
+example : npExprS (fun i => if i = 0 then (0, -7) else (2, 5))
+    (.bin .mul (.binR .sub (.binR .floordiv (.var 0) 2) 3) (.var 1)) = some (2, -35) := by decide +kernel
+example : npExprS (fun _ => (0, -7)) (.binL .sub 100 (.var 0)) = some (0, 107) := by decide +kernel
+-- a literal that does not fit the element type it meets: numpy raises OverflowError
+example : npExprS (fun _ => (0, -7)) (.binR .add (.var 0) 1000) = none := by decide +kernel
+
+
 /-! ## Scoping: after any blocks the previous settings are in force again -/
 
 theorem probesList_append (cur : Option (Bool × Bool)) (xs ys : List Scoped) :
@@ -382,6 +792,79 @@ theorem neg_matches (s : Bool × Bool) (d : Nat) (hd : d ∈ [0, 1, 2, 3]) (x : 
     simp only [hdisp, Bool.and_eq_true, beq_iff_eq] at h'
     obtain ⟨rfl, rfl⟩ := h'
     rfl
+
+/-! ## The wiring: Python's operators reach the dispatcher methods the theorems are about -/
+
+open Generated.VarDunders in
+/-- Obligation (tie G): the operator dunders `Var` defines are exactly these bare delegations to
+    `Var._operator_dispatcher` (method, operand order, arity) - no other operator dunder (`__pow__`,
+    `__iadd__`, comparisons ...), no body with anything besides the delegation (an early check, a cache) -
+    and the two dispatcher classes define exactly the methods `Model/Dispatch.lean` describes. -/
+theorem var_dunders_wired :
+    wires =
+      [⟨"__add__", "add", false, 2⟩, ⟨"__and__", "and_", false, 2⟩, ⟨"__floordiv__", "floordiv", false, 2⟩,
+       ⟨"__invert__", "not_", false, 1⟩, ⟨"__mul__", "mul", false, 2⟩, ⟨"__neg__", "neg", false, 1⟩,
+       ⟨"__or__", "or_", false, 2⟩, ⟨"__radd__", "add", true, 2⟩, ⟨"__rand__", "and_", true, 2⟩,
+       ⟨"__rfloordiv__", "floordiv", true, 2⟩, ⟨"__rmul__", "mul", true, 2⟩, ⟨"__ror__", "or_", true, 2⟩,
+       ⟨"__rsub__", "sub", true, 2⟩, ⟨"__rtruediv__", "truediv", true, 2⟩, ⟨"__rxor__", "xor", true, 2⟩,
+       ⟨"__sub__", "sub", false, 2⟩, ⟨"__truediv__", "truediv", false, 2⟩, ⟨"__xor__", "xor", false, 2⟩]
+    ∧ numpyDispatcher = ["__init__", "_promote", "add", "and_", "floordiv", "mul", "neg", "not_", "or_", "sub", "truediv", "xor"]
+    ∧ defaultDispatcher = ["_not_impl", "_not_impl_unary", "add=_not_impl", "and_=_not_impl", "floordiv=_not_impl",
+        "mul=_not_impl", "neg=_not_impl_unary", "not_=_not_impl_unary", "or_=_not_impl", "sub=_not_impl",
+        "truediv=_not_impl", "xor=_not_impl"] := by decide +kernel
+
+def Op.ofMethod : String → Option Op
+  | "add" => some .add | "sub" => some .sub | "mul" => some .mul | "truediv" => some .truediv
+  | "floordiv" => some .floordiv | "neg" => some .neg | "and_" => some .and_ | "or_" => some .or_
+  | "xor" => some .xor | "not_" => some .not_ | _ => none
+
+/-- the name Python looks up for `a <op> b` / `<op> a` on the left operand, and for the reflected call -/
+def fwdName : Op → String
+  | .add => "__add__" | .sub => "__sub__" | .mul => "__mul__" | .truediv => "__truediv__"
+  | .floordiv => "__floordiv__" | .neg => "__neg__" | .and_ => "__and__" | .or_ => "__or__"
+  | .xor => "__xor__" | .not_ => "__invert__"
+def revName : Op → String
+  | .add => "__radd__" | .sub => "__rsub__" | .mul => "__rmul__" | .truediv => "__rtruediv__"
+  | .floordiv => "__rfloordiv__" | .and_ => "__rand__" | .or_ => "__ror__" | .xor => "__rxor__"
+  | .neg => "<no reflected form>" | .not_ => "<no reflected form>"
+
+def lookup (name : String) : Option (Op × Bool) :=
+  (Generated.VarDunders.wires.find? (fun w => w.dunder == name)).bind
+    (fun w => (Op.ofMethod w.method).map (fun m => (m, w.swapped)))
+
+/-- the wiring of `Var` as read from its class body on this run -/
+def genWiring : Wiring := ⟨fun op => lookup (fwdName op), fun op => lookup (revName op)⟩
+
+def allOps : List Op := [.add, .sub, .mul, .truediv, .floordiv, .neg, .and_, .or_, .xor, .not_]
+
+theorem genWiring_fwd : ∀ op ∈ allOps, genWiring.fwd op = some (op, false) := by decide +kernel
+theorem genWiring_rev : ∀ op ∈ [Op.add, .sub, .mul, .truediv, .floordiv, .and_, .or_, .xor],
+    genWiring.rev op = some (op, true) := by decide +kernel
+
+/-- **`a <op> b` written with Python's operators is `dispatch … op a b`** - the left operand stays on
+    the left whichever of the two is the `Var` (so every theorem about `dispatch` is about the Python
+    expression): for all binary operators, all settings (and outside a block), all operands of which at
+    least one is a `Var`. -/
+theorem operator_is_dispatch (np : NpInfo) (settings : Option (Bool × Bool)) (op : Op)
+    (hop : op ∈ [Op.add, .sub, .mul, .truediv, .floordiv, .and_, .or_, .xor]) (a b : Operand)
+    (h : Operand.isVar a = true ∨ Operand.isVar b = true) :
+    applyOperator genWiring np settings op a b = dispatch np settings op a b := by
+  have hall : ∀ o ∈ [Op.add, .sub, .mul, .truediv, .floordiv, .and_, .or_, .xor], o ∈ allOps := by decide
+  have hf := genWiring_fwd op (hall op hop)
+  have hr := genWiring_rev op hop
+  cases a with
+  | var d => simp [applyOperator, hf]
+  | _ =>
+    cases b with
+    | var d => simp [applyOperator, hr]
+    | _ => simp [Operand.isVar] at h
+
+/-- the unary operators `-a`, `~a` on a `Var` -/
+theorem unary_operator_is_dispatch (np : NpInfo) (settings : Option (Bool × Bool)) (op : Op)
+    (hop : op = .neg ∨ op = .not_) (d : Nat) (b : Operand) :
+    applyOperator genWiring np settings op (.var d) b = dispatch np settings op (.var d) b := by
+  have hf := genWiring_fwd op (by rcases hop with rfl | rfl <;> simp [allOps])
+  simp [applyOperator, hf]
 
 /-! ## What does not hold (listed findings), with the part that does -/
 
